@@ -339,6 +339,42 @@ def c3(rep, cov, tier):
     cov["traces_validated_against_impl"] += len(cases) + len(lcases)
 
 
+def c4(rep, cov, tier):
+    """recursion diagnostics (P0010 / P0013) of the graphs of Recursion.tla: the label names a declaration that is ON a cycle
+    (the specification's on_cycle set) - not one that merely refers to the cycle or is referred to by it"""
+    import graphreal
+    cfgs = ["MC_Rec_3.cfg", "MC_Rec_rand8.cfg"] + ([] if tier == "quick" else ["MC_Rec_rand12.cfg"])
+    graphs = []
+    for c in cfgs:
+        r = vlib.tlc_check("Recursion.tla", c, workers=4, name="c05_" + c[:-4])
+        cov["states"] += r["states"]
+        cov["transitions"] += r["transitions"]
+        graphs += [g for g in r["replay"] if g.get("R") == "graph" and g["cyclic"] and len(g["on_cycle"]) < g["n"]]
+    cases, meta = [], []
+    for g in graphs:
+        for kind, text in (("fb", graphreal.realise_fb(g)), ("struct", graphreal.realise_struct(g)), ("mixed", graphreal.realise_mixed(g, 1))):
+            cases.append({"id": len(cases), "files": [{"name": "g.st", "text": text}]})
+            meta.append((g, kind, text))
+    res = vlib.harness("analyze", cases)
+    n = 0
+    for (g, kind, text), r in zip(meta, res):
+        tb = text.encode("utf-8")
+        on = set("n%d" % i for i in g["on_cycle"])
+        for d in r.get("analyze_diags", []):
+            if d["code"] not in ("P0010", "P0013"):
+                continue
+            lab = d["primary"]
+            if lab["file"] != "g.st":
+                continue
+            n += 1
+            t = tb[lab["start"]:lab["end"]].decode("utf-8", "replace").strip().lower()
+            if t not in on:
+                rep.add("recursion-label-names-a-declaration-that-is-not-on-a-cycle:%s" % kind, labels={"recursion", "real:" + kind},
+                        detail={"edges": g["edges"], "on_cycle": g["on_cycle"], "labelled_text": t}, replay={"text": text})
+    cov["c4_recursion_labels_checked"] = n
+    cov["traces_validated_against_impl"] += n
+
+
 def run(rep, cov, tier):
     import os
     import sys
@@ -346,5 +382,6 @@ def run(rep, cov, tier):
     c1(rep, cov, tier)
     c2(rep, cov, tier)
     c3(rep, cov, tier)
+    c4(rep, cov, tier)
     import clipos
     clipos.cross_command_positions(rep, cov)
